@@ -567,6 +567,15 @@ def gen_C06(w, tier):
                             s2 = sc.cycle(s2, side, ps)
                         o2 = sc.finish(s2, bytes([v]) + own[1:])
                         rec.append(("reflect", v, o2))
+                # the same frames delivered as a bytearray (bytes-like objects are accepted by the library)
+                # (Ed25519 only: IntegerGroup.bytes_to_element insists on `bytes`)
+                for v in ((0x41, 0x42, 0x53, 0x5a) if ps.kind == "ed" else ()):
+                    s3 = sc.new(side, ps, b"pw", b"", b"", w.entropy_for(ps, 5))
+                    sc.start(s3)
+                    if restored:
+                        s3 = sc.cycle(s3, side, ps)
+                    o3 = sc.do("finishba %d %s" % (s3, hx(bytes([v]) + peer["B" if side == "A" else "A" if side == "B" else "S"][1:])))
+                    rec.append((v, o3))
                 sc.meta.update(rec=rec, side=side)
 
                 def pred(io, sc):
